@@ -9,236 +9,6 @@ namespace vh
 using namespace multitensor;
 std::string g_tmp_path;
 
-// ------------------------------------------------------------------ GRAPH
-template <class vertex_t, class direction_t, class weight_t>
-void graph_case(Toks &tk, std::ostream &os, const std::string &id, size_t L, size_t nrec)
-{
-    constexpr bool directed = std::is_same_v<direction_t, boost::bidirectionalS>;
-    std::vector<vertex_t> starts, ends;
-    std::vector<weight_t> weights;
-    for (size_t i = 0; i < nrec; i++)
-    {
-        starts.push_back(parse_as<vertex_t>(tk.tok()));
-        ends.push_back(parse_as<vertex_t>(tk.tok()));
-        for (size_t a = 0; a < L; a++)
-            weights.push_back(parse_as<weight_t>(tk.tok()));
-    }
-    graph::Network<vertex_t, direction_t> A(starts, ends, weights);
-    size_t N = A.num_vertices();
-    os << id << " dims " << N << " " << A.num_edges() << " " << A.num_layers() << "\n";
-    std::vector<vertex_t> labels;
-    A.extract_vertices_labels(labels);
-    os << id << " labels";
-    for (auto &l : labels)
-        os << " " << to_s(l);
-    os << "\n";
-    for (size_t a = 0; a < A.num_layers(); a++)
-    {
-        for (size_t i = 0; i < N; i++)
-        {
-            os << id << " out " << a << " " << i << " :";
-            auto its = boost::out_edges(i, A(a));
-            for (auto it = its.first; it != its.second; ++it)
-                os << " " << boost::target(*it, A(a));
-            os << "\n";
-        }
-        if constexpr (directed)
-        {
-            for (size_t i = 0; i < N; i++)
-            {
-                os << id << " in " << a << " " << i << " :";
-                auto its = boost::in_edges(i, A(a));
-                for (auto it = its.first; it != its.second; ++it)
-                    os << " " << boost::source(*it, A(a));
-                os << "\n";
-            }
-        }
-    }
-    auto ul = std::make_shared<std::vector<size_t>>();
-    auto vl = std::make_shared<std::vector<size_t>>();
-    A.extract_vertices_with_edges(ul, vl);
-    os << id << " ul :";
-    for (auto i : *ul)
-        os << " " << i;
-    os << "\n"
-       << id << " vl :";
-    for (auto i : *vl)
-        os << " " << i;
-    os << "\n";
-    if (!directed && ul.get() != vl.get())
-        os << id << " LISTS-NOT-SHARED\n";
-    os << id << " nv " << utils::get_num_vertices(starts, ends) << "\n";
-}
-
-template <class vertex_t, class weight_t>
-void graph_dir(Toks &tk, std::ostream &os, const std::string &id, bool directed, size_t L, size_t nrec)
-{
-    if (directed)
-        graph_case<vertex_t, boost::bidirectionalS, weight_t>(tk, os, id, L, nrec);
-    else
-        graph_case<vertex_t, boost::undirectedS, weight_t>(tk, os, id, L, nrec);
-}
-
-template <class vertex_t>
-void graph_w(Toks &tk, std::ostream &os, const std::string &id, bool directed, const std::string &wtype, size_t L, size_t nrec)
-{
-    if (wtype == "r")
-        graph_dir<vertex_t, double>(tk, os, id, directed, L, nrec);
-    else if (wtype == "u")
-        graph_dir<vertex_t, size_t>(tk, os, id, directed, L, nrec);
-    else
-        graph_dir<vertex_t, long>(tk, os, id, directed, L, nrec);
-}
-
-void do_graph(Toks &tk, std::ostream &os)
-{
-    std::string id = "G " + tk.tok();
-    bool directed = tk.integer() == 1;
-    std::string ltype = tk.tok(), wtype = tk.tok();
-    size_t L = (size_t)tk.integer(), nrec = (size_t)tk.integer();
-    if (ltype == "s")
-        graph_w<std::string>(tk, os, id, directed, wtype, L, nrec);
-    else if (ltype == "u")
-        graph_w<size_t>(tk, os, id, directed, wtype, L, nrec);
-    else
-        graph_w<long>(tk, os, id, directed, wtype, L, nrec);
-}
-
-// ------------------------------------------------------------------ UPD
-template <class T>
-void dump_flat(std::ostream &os, const std::string &id, const char *tag, const T &t)
-{
-    os << id << " " << tag;
-    for (double x : t.get_data())
-        os << " " << hx(x);
-    os << "\n";
-}
-inline void dump_rows(std::ostream &os, const std::string &id, const char *tag, const tensor::Matrix<double> &m)
-{
-    os << id << " " << tag;
-    auto d = m.dims();
-    for (size_t a = 0; a < std::get<0>(d); a++)
-        for (size_t b = 0; b < std::get<1>(d); b++)
-            os << " " << hx(m(a, b));
-    os << "\n";
-}
-
-template <class direction_t, class affinity_t, class weight_t>
-void upd_case(Toks &tk, std::ostream &os, const std::string &id, size_t K, size_t L, size_t nrec)
-{
-    constexpr bool directed = std::is_same_v<direction_t, boost::bidirectionalS>;
-    constexpr bool assort = std::is_same_v<affinity_t, tensor::DiagonalTensor<double>>;
-    std::vector<std::string> starts, ends;
-    std::vector<weight_t> weights;
-    for (size_t i = 0; i < nrec; i++)
-    {
-        starts.push_back(tk.tok());
-        ends.push_back(tk.tok());
-        for (size_t a = 0; a < L; a++)
-            weights.push_back(parse_as<weight_t>(tk.tok()));
-    }
-    graph::Network<std::string, direction_t> A(starts, ends, weights);
-    size_t N = A.num_vertices();
-    auto ul = std::make_shared<std::vector<size_t>>();
-    auto vl = std::make_shared<std::vector<size_t>>();
-    A.extract_vertices_with_edges(ul, vl);
-    tensor::Matrix<double> u(N, K), v(N, K);
-    for (size_t i = 0; i < N; i++)
-        for (size_t k = 0; k < K; k++)
-            u(i, k) = tk.flt();
-    if (directed)
-        for (size_t i = 0; i < N; i++)
-            for (size_t k = 0; k < K; k++)
-                v(i, k) = tk.flt();
-    size_t wn = assort ? K * L : K * K * L;
-    std::vector<double> wflat;
-    for (size_t i = 0; i < wn; i++)
-        wflat.push_back(tk.flt());
-    affinity_t w(K, L, wflat);
-    os << id << " dims " << N << "\n";
-    solver::Solver S(1, 1000, 1000);
-    {
-        // update_vertices (out-edges) on the input state
-        tensor::Matrix<double> uu(u), vv(v);
-        if constexpr (directed)
-            S.update_vertices<graph::out_edges_target_vertices>(*ul, *vl, A, w, vv, uu);
-        else
-            S.update_vertices<graph::out_edges_target_vertices>(*ul, *vl, A, w, uu, uu);
-        dump_rows(os, id, "u1", uu);
-    }
-    if constexpr (directed)
-    {
-        tensor::Matrix<double> uu(u), vv(v);
-        if constexpr (assort)
-        {
-            S.update_vertices<graph::in_edges_source_vertices>(*vl, *ul, A, w, uu, vv);
-        }
-        else
-        {
-            tensor::Transpose wT(w);
-            S.update_vertices<graph::in_edges_source_vertices>(*vl, *ul, A, wT, uu, vv);
-        }
-        dump_rows(os, id, "v1", vv);
-    }
-    {
-        affinity_t ww(w);
-        if constexpr (directed)
-            S.update_affinity(*ul, *vl, A, u, v, ww);
-        else
-            S.update_affinity(*ul, *vl, A, u, u, ww);
-        dump_flat(os, id, "w1", ww);
-    }
-    {
-        double l = directed ? S.calculate_likelyhood(u, v, w, A) : S.calculate_likelyhood(u, u, w, A);
-        os << id << " lik " << hx(l) << "\n";
-    }
-    {
-        // one composed call of loop(): u, v(new u), w(new u, new v), then the likelihood (iteration 0)
-        tensor::Matrix<double> uu(u), vv(v);
-        affinity_t ww(w);
-        size_t iteration = 0, coincide = 0;
-        double L2 = std::numeric_limits<double>::lowest();
-        if constexpr (directed)
-            S.loop(*ul, *vl, A, uu, vv, ww, iteration, coincide, L2);
-        else
-            S.loop(*ul, *vl, A, uu, uu, ww, iteration, coincide, L2);
-        dump_rows(os, id, "sweep_u", uu);
-        if (directed)
-            dump_rows(os, id, "sweep_v", vv);
-        dump_flat(os, id, "sweep_w", ww);
-        os << id << " sweep_lik " << hx(L2) << "\n";
-    }
-}
-
-template <class weight_t>
-void upd_w(Toks &tk, std::ostream &os, const std::string &id, bool directed, bool assort, size_t K, size_t L, size_t nrec)
-{
-    using namespace boost;
-    using Sym = tensor::SymmetricTensor<double>;
-    using Dia = tensor::DiagonalTensor<double>;
-    if (directed && !assort)
-        upd_case<bidirectionalS, Sym, weight_t>(tk, os, id, K, L, nrec);
-    else if (directed && assort)
-        upd_case<bidirectionalS, Dia, weight_t>(tk, os, id, K, L, nrec);
-    else if (!directed && !assort)
-        upd_case<undirectedS, Sym, weight_t>(tk, os, id, K, L, nrec);
-    else
-        upd_case<undirectedS, Dia, weight_t>(tk, os, id, K, L, nrec);
-}
-
-void do_upd(Toks &tk, std::ostream &os)
-{
-    std::string id = "U " + tk.tok();
-    bool directed = tk.integer() == 1, assort = tk.integer() == 1;
-    size_t K = (size_t)tk.integer(), L = (size_t)tk.integer();
-    std::string wtype = tk.tok();
-    size_t nrec = (size_t)tk.integer();
-    if (wtype == "r")
-        upd_w<double>(tk, os, id, directed, assort, K, L, nrec);
-    else
-        upd_w<long>(tk, os, id, directed, assort, K, L, nrec);
-}
-
 // ------------------------------------------------------------------ E2E
 void do_e2e(Toks &tk, std::ostream &os)
 {
@@ -255,279 +25,6 @@ void do_e2e(Toks &tk, std::ostream &os)
         throw std::runtime_error("harness: unsupported (label,weight) type pair " + ltype + wtype);
 }
 
-// ------------------------------------------------------------------ LAYOUT
-void do_layout(Toks &tk, std::ostream &os)
-{
-    std::string id = "L " + tk.tok();
-    size_t R = (size_t)tk.integer(), C = (size_t)tk.integer(), T = (size_t)tk.integer();
-    tensor::Tensor<double> t(R, C, T);
-    const double *base = t.get_data().data();
-    std::ostringstream a1, a2;
-    for (size_t a = 0; a < T; a++)
-        for (size_t j = 0; j < C; j++)
-            for (size_t i = 0; i < R; i++)
-            {
-                a1 << (&t(i, j, a) - base) << " ";
-                a2 << t.get_index(i, j, a) << " ";
-            }
-    os << id << " idx " << a1.str() << "\n";
-    os << id << " cxx " << a2.str() << "\n";
-    {
-        // transposed view of a C x R x T tensor
-        tensor::Tensor<double> s(C, R, T);
-        tensor::Transpose<tensor::Tensor<double>> sT(s);
-        const double *b2 = s.get_data().data();
-        os << id << " transposed ";
-        for (size_t a = 0; a < T; a++)
-            for (size_t j = 0; j < C; j++)
-                for (size_t i = 0; i < R; i++)
-                    os << (&sT(i, j, a) - b2) << " ";
-        os << "\n";
-        // the const accessors (the ones the solver uses through `const affinity_t &`); addresses only, nothing is read
-        const tensor::Transpose<tensor::Tensor<double>> &csT = sT;
-        os << id << " transposed_const ";
-        for (size_t a = 0; a < T; a++)
-            for (size_t j = 0; j < C; j++)
-                for (size_t i = 0; i < R; i++)
-                    os << (&csT(i, j, a) - b2) << " ";
-        os << "\n";
-        const tensor::Tensor<double> &ct = t;
-        os << id << " idx_const ";
-        for (size_t a = 0; a < T; a++)
-            for (size_t j = 0; j < C; j++)
-                for (size_t i = 0; i < R; i++)
-                    os << (&ct(i, j, a) - base) << " ";
-        os << "\n";
-    }
-    {
-        tensor::DiagonalTensor<double> d(R, T);
-        const double *b3 = d.get_data().data();
-        os << id << " diag ";
-        for (size_t a = 0; a < T; a++)
-            for (size_t i = 0; i < R; i++)
-                os << (&d(i, a) - b3) << " ";
-        os << "\n";
-    }
-    {
-        tensor::SymmetricTensor<double> sy(R, T);
-        const double *b4 = sy.get_data().data();
-        os << id << " sym ";
-        for (size_t a = 0; a < T; a++)
-            for (size_t q = 0; q < R; q++)
-                for (size_t k = 0; k < R; k++)
-                    os << (&sy(k, q, a) - b4) << " ";
-        os << "\n";
-    }
-}
-// ------------------------------------------------------------------ WMEM: write_membership_file on given labels / matrix
-void do_wmem(Toks &tk, std::ostream &os)
-{
-    std::string id = "M " + tk.tok();
-    size_t N = (size_t)tk.integer(), K = (size_t)tk.integer();
-    std::vector<size_t> labels;
-    for (size_t i = 0; i < N; i++)
-        labels.push_back(parse_as<size_t>(tk.tok()));
-    tensor::Matrix<double> m(N, K);
-    for (size_t i = 0; i < N; i++)
-        for (size_t k = 0; k < K; k++)
-            m(i, k) = tk.flt();
-    utils::Report rep{};
-    rep.nof_realizations = 1;
-    rep.vec_L2.push_back(-1.0);
-    write_membership_file(boost::filesystem::path(g_tmp_path), labels, m, rep);
-    std::ifstream in(g_tmp_path);
-    std::string line;
-    size_t n = 0;
-    while (std::getline(in, line))
-    {
-        if (n > 0)
-        {
-            std::istringstream is(line);
-            std::string t;
-            os << id << " line " << n << " :";
-            while (is >> t)
-                os << " " << t;
-            os << "\n";
-        }
-        n++;
-    }
-    std::remove(g_tmp_path.c_str());
-}
-
-// ------------------------------------------------------------------ WAFV: write_affinity_file on given values
-void do_wafv(Toks &tk, std::ostream &os)
-{
-    std::string id = "V " + tk.tok();
-    size_t K = (size_t)tk.integer(), L = (size_t)tk.integer();
-    bool assort = tk.integer() == 1;
-    std::vector<double> aff(assort ? K * L : K * K * L);
-    for (size_t p = 0; p < aff.size(); p++)
-        aff[p] = tk.flt();
-    utils::Report rep{};
-    rep.nof_realizations = 1;
-    rep.vec_L2.push_back(-1.0);
-    write_affinity_file(boost::filesystem::path(g_tmp_path), aff, rep, K, L);
-    std::ifstream in(g_tmp_path);
-    std::string line;
-    size_t n = 0;
-    while (std::getline(in, line))
-    {
-        if (n > 0)
-        {
-            std::istringstream is(line);
-            std::string t;
-            os << id << " line " << n << " :";
-            while (is >> t)
-                os << " " << t;
-            os << "\n";
-        }
-        n++;
-    }
-    std::remove(g_tmp_path.c_str());
-}
-
-// ------------------------------------------------------------------ RESIZE: a tensor that held one shape is resized to another
-void do_resize(Toks &tk, std::ostream &os)
-{
-    std::string id = "Z " + tk.tok();
-    size_t R1 = (size_t)tk.integer(), C1 = (size_t)tk.integer(), T1 = (size_t)tk.integer();
-    size_t R = (size_t)tk.integer(), C = (size_t)tk.integer(), T = (size_t)tk.integer();
-    tensor::Tensor<double> t(R1, C1, T1);
-    for (size_t a = 0; a < T1; a++)
-        for (size_t j = 0; j < C1; j++)
-            for (size_t i = 0; i < R1; i++)
-                t(i, j, a) = 1.0 + (double)(i + j + a);
-    t.resize(R, C, T);
-    auto d = t.dims();
-    os << id << " dims " << std::get<0>(d) << " " << std::get<1>(d) << " " << std::get<2>(d) << " " << t.size() << "\n";
-    // positions are computed with the tensor's own (protected) formula on its CURRENT dimensions, without touching memory
-    os << id << " idx";
-    for (size_t a = 0; a < T; a++)
-        for (size_t j = 0; j < C; j++)
-            for (size_t i = 0; i < R; i++)
-                os << " " << (a * std::get<1>(d) * std::get<0>(d) + j * std::get<0>(d) + i);
-    os << "\n";
-    bool zero = true;
-    for (double x : t.get_data())
-        if (x != 0.0)
-            zero = false;
-    os << id << " zeroed " << (zero ? 1 : 0) << "\n";
-    // Matrix / DiagonalTensor / SymmetricTensor forward to the same function
-    tensor::Matrix<double> m(R1 * T1, C1);
-    m.resize(R * T, C);
-    auto dm = m.dims();
-    os << id << " matrix " << std::get<0>(dm) << " " << std::get<1>(dm) << " " << std::get<2>(dm) << "\n";
-}
-
-// ------------------------------------------------------------------ WAFF: write_affinity_file on a position-encoded vector
-void do_waff(Toks &tk, std::ostream &os)
-{
-    std::string id = "W " + tk.tok();
-    size_t K = (size_t)tk.integer(), L = (size_t)tk.integer();
-    bool assort = tk.integer() == 1;
-    std::vector<double> aff(assort ? K * L : K * K * L);
-    for (size_t p = 0; p < aff.size(); p++)
-        aff[p] = (double)p;
-    utils::Report rep{};
-    rep.nof_realizations = 1;
-    rep.vec_L2.push_back(-1.0);
-    write_affinity_file(boost::filesystem::path(g_tmp_path), aff, rep, K, L);
-    std::ifstream in(g_tmp_path);
-    std::string line;
-    size_t n = 0;
-    while (std::getline(in, line))
-    {
-        if (n > 0)
-        {
-            std::istringstream is(line);
-            std::string t;
-            os << id << " line " << n << " :";
-            while (is >> t)
-                os << " " << t;
-            os << "\n";
-        }
-        n++;
-    }
-    std::remove(g_tmp_path.c_str());
-}
-// ------------------------------------------------------------------ PARSE / RAFF: the front end's readers on file bytes
-static void write_hex_file(const std::string &path, const std::string &hex)
-{
-    std::ofstream f(path, std::ios::binary);
-    for (size_t i = 0; i + 1 < hex.size(); i += 2)
-        f.put((char)std::stoi(hex.substr(i, 2), nullptr, 16));
-}
-void do_parse(Toks &tk, std::ostream &os)
-{
-    std::string id = "P " + tk.tok();
-    std::string hex = tk.p < tk.t.size() ? tk.tok() : "";
-    write_hex_file(g_tmp_path, hex);
-    std::vector<size_t> s, e, w;
-    try
-    {
-        read_adjacency_data(boost::filesystem::path(g_tmp_path), s, e, w);
-        os << id << " OK\n";
-        os << id << " starts";
-        for (auto x : s)
-            os << " " << x;
-        os << "\n" << id << " ends";
-        for (auto x : e)
-            os << " " << x;
-        os << "\n" << id << " weights";
-        for (auto x : w)
-            os << " " << x;
-        os << "\n";
-    }
-    catch (const std::exception &ex)
-    {
-        os << id << " ERR\n";
-    }
-    std::remove(g_tmp_path.c_str());
-}
-void do_raff(Toks &tk, std::ostream &os)
-{
-    std::string id = "A " + tk.tok();
-    bool assort = tk.integer() == 1;
-    size_t K = (size_t)tk.integer(), L = (size_t)tk.integer(), expk = (size_t)tk.integer();
-    std::string hex = tk.p < tk.t.size() ? tk.tok() : "";
-    write_hex_file(g_tmp_path, hex);
-    std::vector<double> w(assort ? K * L : K * K * L);
-    for (size_t p = 0; p < w.size(); p++)
-        w[p] = -(double)p - 0.5;
-    try
-    {
-        read_affinity_data(boost::filesystem::path(g_tmp_path), assort, w, expk);
-        os << id << " OK";
-        for (double x : w)
-            os << " " << hx(x);
-        os << "\n";
-    }
-    catch (const std::exception &ex)
-    {
-        os << id << " ERR\n";
-    }
-    std::remove(g_tmp_path.c_str());
-}
-
-// ------------------------------------------------------------------ RNG: the reference stream of the library's generator type
-void do_rng(Toks &tk, std::ostream &os)
-{
-    std::string id = "R " + tk.tok();
-    long seed = tk.integer();
-    size_t n = (size_t)tk.integer();
-    utils::RandomGenerator<> g{(std::time_t)seed};
-    os << id << " draws";
-    for (size_t i = 0; i < n; i++)
-        os << " " << hx(g());
-    os << "\n";
-    // and an independently constructed std engine + distribution
-    std::mt19937 e(static_cast<unsigned int>(seed));
-    std::uniform_real_distribution<double> d;
-    os << id << " std";
-    for (size_t i = 0; i < n; i++)
-        os << " " << hx(d(e));
-    os << "\n";
-}
 } // namespace vh
 
 int main(int argc, char **argv)
